@@ -708,7 +708,7 @@ def c16(v, tier):
     # N = 254 with a window: sending one window takes N x windowsize ms, which can exceed the negotiated timeout;
     # every block must still be emitted exactly 255 times to a client that acknowledges every copy
     sbL = ctx.sandbox("c16big")
-    contentL = N.keyed_content("c16-254", 512 * 10 + 9)
+    contentL = N.keyed_content("c16-254", 1024 * 12 + 9)       # 13 blocks of 1 KiB: two full windows of 5 and a short one
     write(os.path.join(sbL["srv"], "L.bin"), contentL)
     with N.Server(bins["tftpd"], sbL["srv"], dup=254, logdir=sbL["logs"]) as srvL:
         evals += 1
